@@ -337,14 +337,15 @@ Lemma rnd_1 : rnd 1 = 1.
 Proof. rewrite <- (one_B2R prec emax Hp Hpe). apply rnd_B2R. Qed.
 Lemma rnd_m1 : rnd (-1) = -1.
 Proof.
-  rewrite <- (one_B2R prec emax Hp Hpe), <- B2R_Bopp. apply rnd_B2R.
+  replace (-1) with (- B2R one) by (rewrite (one_B2R prec emax Hp Hpe); lra).
+  rewrite <- B2R_Bopp. apply rnd_B2R.
 Qed.
 
 (* structure of finite floats from their value *)
 Lemma finite_zero_struct (x : float) : is_finite x = true -> B2R x = 0 -> x = B754_zero (Bsign x).
 Proof.
   destruct x as [|?| |s m e H]; try discriminate; intros _; simpl; trivial.
-  intros E. apply F2R_eq_0 in E. destruct s; discriminate.
+  intros E. apply eq_0_F2R in E. destruct s; discriminate.
 Qed.
 Lemma finite_pos_struct (x : float) :
   is_finite x = true -> 0 < B2R x -> exists m e H, x = B754_finite false m e H.
@@ -389,6 +390,48 @@ Proof.
   { apply round_plus_neq_0; auto with typeclass_instances.
     apply generic_format_B2R. apply generic_format_opp, generic_format_B2R. lra. }
   unfold Rminus in *. lra.
+Qed.
+
+(* ---- comparisons of finite floats as real comparisons ---- *)
+Lemma fcmp_finite (x y : float) : is_finite x = true -> is_finite y = true ->
+  fcmp prec emax x y = Some (Rcompare (B2R x) (B2R y)).
+Proof. intros. now apply Bcompare_correct. Qed.
+
+Lemma flt_finite (x y : float) : is_finite x = true -> is_finite y = true ->
+  (flt prec emax x y = true <-> B2R x < B2R y).
+Proof.
+  intros Fx Fy. unfold Guards.flt. rewrite fcmp_finite by trivial.
+  destruct (Rcompare_spec (B2R x) (B2R y)); split; intros; try discriminate; try lra; trivial.
+Qed.
+Lemma fgt_finite (x y : float) : is_finite x = true -> is_finite y = true ->
+  (fgt x y = true <-> B2R y < B2R x).
+Proof.
+  intros Fx Fy. unfold Guards.fgt. rewrite fcmp_finite by trivial.
+  destruct (Rcompare_spec (B2R x) (B2R y)); split; intros; try discriminate; try lra; trivial.
+Qed.
+Lemma fge_finite (x y : float) : is_finite x = true -> is_finite y = true ->
+  (fge prec emax x y = true <-> B2R y <= B2R x).
+Proof.
+  intros Fx Fy. unfold Guards.fge. rewrite fcmp_finite by trivial.
+  destruct (Rcompare_spec (B2R x) (B2R y)); split; intros; try discriminate; try lra; trivial.
+Qed.
+Lemma fle_finite (x y : float) : is_finite x = true -> is_finite y = true ->
+  (fle prec emax x y = true <-> B2R x <= B2R y).
+Proof.
+  intros Fx Fy. unfold Guards.fle. rewrite fcmp_finite by trivial.
+  destruct (Rcompare_spec (B2R x) (B2R y)); split; intros; try discriminate; try lra; trivial.
+Qed.
+
+(* a constant whose exact rounding is in range is finite and has that value *)
+Lemma cdy_small (m e : Z) :
+  Rabs (rnd (F2R (Float radix2 m e))) < M ->
+  is_finite (cdy prec emax Hp Hpe m e) = true /\
+  B2R (cdy prec emax Hp Hpe m e) = rnd (F2R (Float radix2 m e)).
+Proof.
+  intros A. unfold cdy.
+  generalize (binary_normalize_correct prec emax Hp Hpe mode_NE m e false). simpl.
+  fold (rnd (F2R (Float radix2 m e))). fold M.
+  rewrite Rlt_bool_true by trivial. now intros (V & F & _).
 Qed.
 
 End Fmt.
